@@ -22,8 +22,17 @@ pub enum Hz {
     Cond,
     /// `{n{x}}` copied verbatim (Veryl: `{x repeat n}`)
     Repl,
+    /// `x inside {…}` copied verbatim (Veryl: `inside x {…}`)
+    Inside,
+    /// `===` / `!==` copied verbatim (no Veryl operator)
+    CaseEq,
+    /// `N'(x)` rewritten to `(x) as logic<N>`, which Veryl does not accept
+    Cast,
     /// clock / reset ports of an always_ff become plain `logic`
     Ff,
+    /// only the first statement of an always block body is translated
+    /// (none when the body is not a begin / end block)
+    AlwaysBody,
     /// `for (...; i <= N; ...)` becomes `0..N`
     ForLe,
     /// `for (...; ...; i = i + 2)` loses its step
@@ -34,8 +43,6 @@ pub enum Hz {
     Func1Bit,
     /// local variable of a function is dropped
     FuncLocal,
-    /// `f = expr;` (assignment to the function name)
-    FuncNameAssign,
     /// untyped `parameter` / `localparam` becomes `u32`
     UntypedParam,
     /// `input logic [7:0] a, b` — `b` loses direction / type
@@ -48,7 +55,7 @@ pub enum Hz {
     DimNonZero,
     /// unpacked dimension dropped
     Unpacked,
-    /// `casez` / `casex` become `case`
+    /// `casez` item with `?` digits
     Casez,
     /// `begin … end` with more than one statement as a case arm
     CaseArmBlock,
@@ -58,24 +65,12 @@ pub enum Hz {
     InstParam,
     /// positional port connections dropped
     InstOrdered,
-    /// `N'(x)` casts
-    Cast,
-    /// generate block label dropped
+    /// generate block label dropped (Veryl requires one)
     GenLabel,
-    /// `inside`
-    Inside,
-    /// `===` / `!==`
-    CaseEq,
-    /// procedural `for` header without a loop-variable type
-    ForStmt,
-    /// `assign a = x, b = y;` in one statement
-    AssignList,
-    /// `**`
-    Pow,
-    /// sized literal with `s` / unsized based literal / underscore etc.
-    LitForm,
-    /// typedef enum with unqualified members
-    Enum,
+    /// `//` comment between the last port name and `)`
+    TrailingComment,
+    /// the xnor operator spelled `^~` is split into `^` and `~`
+    XnorCaretTilde,
 }
 
 impl Hz {
@@ -83,13 +78,16 @@ impl Hz {
         Hz::LtGt,
         Hz::Cond,
         Hz::Repl,
+        Hz::Inside,
+        Hz::CaseEq,
+        Hz::Cast,
         Hz::Ff,
+        Hz::AlwaysBody,
         Hz::ForLe,
         Hz::ForStep,
         Hz::CompoundAssign,
         Hz::Func1Bit,
         Hz::FuncLocal,
-        Hz::FuncNameAssign,
         Hz::UntypedParam,
         Hz::PortInherit,
         Hz::WireInit,
@@ -101,48 +99,39 @@ impl Hz {
         Hz::Keyword,
         Hz::InstParam,
         Hz::InstOrdered,
-        Hz::Cast,
         Hz::GenLabel,
-        Hz::Inside,
-        Hz::CaseEq,
-        Hz::ForStmt,
-        Hz::AssignList,
-        Hz::Pow,
-        Hz::LitForm,
-        Hz::Enum,
+        Hz::TrailingComment,
+        Hz::XnorCaretTilde,
     ];
     pub fn key(self) -> &'static str {
         match self {
             Hz::LtGt => "relational-lt-gt",
             Hz::Cond => "conditional-operator",
             Hz::Repl => "replication",
+            Hz::Inside => "inside-operator",
+            Hz::CaseEq => "case-equality",
+            Hz::Cast => "size-cast",
             Hz::Ff => "ff-clock-port-type",
+            Hz::AlwaysBody => "always-body-first-statement-only",
             Hz::ForLe => "for-inclusive-bound",
             Hz::ForStep => "for-step",
             Hz::CompoundAssign => "compound-assignment",
             Hz::Func1Bit => "function-scalar-return",
             Hz::FuncLocal => "function-local-variable",
-            Hz::FuncNameAssign => "function-name-assignment",
             Hz::UntypedParam => "untyped-parameter",
             Hz::PortInherit => "port-inherits-header",
             Hz::WireInit => "net-declaration-assignment",
             Hz::WireSigned => "net-signed",
             Hz::DimNonZero => "packed-dimension-not-n-to-0",
             Hz::Unpacked => "unpacked-dimension",
-            Hz::Casez => "casez-casex",
+            Hz::Casez => "casez-question-mark",
             Hz::CaseArmBlock => "case-arm-block",
             Hz::Keyword => "keyword-identifier",
             Hz::InstParam => "instance-parameter-override",
             Hz::InstOrdered => "instance-ordered-ports",
-            Hz::Cast => "size-cast",
             Hz::GenLabel => "generate-label",
-            Hz::Inside => "inside-operator",
-            Hz::CaseEq => "case-equality",
-            Hz::ForStmt => "procedural-for",
-            Hz::AssignList => "assign-list",
-            Hz::Pow => "power-operator",
-            Hz::LitForm => "literal-form",
-            Hz::Enum => "enum-member",
+            Hz::TrailingComment => "comment-after-last-port",
+            Hz::XnorCaretTilde => "xnor-caret-tilde",
         }
     }
     pub fn from_key(k: &str) -> Option<Hz> {
@@ -167,7 +156,13 @@ struct ModInfo {
 }
 
 pub struct Case {
+    /// the text given to the translator
     pub sv: String,
+    /// the same design for the simulation of the original: identical except
+    /// that `wire w = e;` is written `wire w; assign w = e;` (1800 10.3.1)
+    /// and positional connections are written by name (23.3.2.1) — two
+    /// forms `vsv` does not read
+    pub sv_sim: String,
     pub top: String,
     pub clock: ClockCfg,
     pub classes: BTreeSet<String>,
@@ -209,16 +204,18 @@ struct G<'a> {
     st: Style,
     uniq: u32,
     clock: ClockCfg,
+    /// (text for the translator, equivalent text for the simulator)
+    sim_rewrites: Vec<(String, String)>,
 }
 
-const KEYWORD_IDENTS: &[&str] = &["in", "step", "msb", "lsb", "inst", "clock", "reset", "type", "let", "param", "pub", "as"];
+const KEYWORD_IDENTS: &[&str] = &["in", "reset", "clock", "step", "msb", "lsb", "gen", "rev", "same", "switch", "block", "inst", "param"];
 
 const WORDS: &[&str] = &[
     "data", "din", "val", "acc", "sum", "cnt", "idx", "sel", "mask", "flag", "tmp", "nxt", "res", "opa", "opb", "key", "lhs", "rhs", "word", "byte_v", "hi", "lo", "mid", "carry",
     "par", "enc", "dec", "mux", "addr", "tag",
 ];
 
-fn lines_push(out: &mut Vec<String>, ind: &str, level: usize, text: &str) {
+fn push(out: &mut Vec<String>, ind: &str, level: usize, text: &str) {
     let mut s = String::new();
     for _ in 0..level {
         s.push_str(ind);
@@ -227,14 +224,20 @@ fn lines_push(out: &mut Vec<String>, ind: &str, level: usize, text: &str) {
     out.push(s);
 }
 
+#[derive(Clone, Debug)]
+pub struct FuncInfo {
+    name: String,
+    args: usize,
+}
+
 impl<'a> G<'a> {
     fn class(&mut self, c: &str) {
         self.classes.insert(c.to_string());
     }
 
     /// An opportunity for a finding's shape with natural probability
-    /// `num/den`; when the shape is the one being shown, it is taken about
-    /// half of the time.
+    /// `num/den`; when the shape is the one being shown, it is taken more
+    /// than half of the time.
     fn hz(&mut self, h: Hz, num: u32, den: u32) -> bool {
         if self.allow.contains(&h) {
             if self.d.chance(3, 5) {
@@ -270,6 +273,7 @@ impl<'a> G<'a> {
         }
     }
 
+    /// `// …` after a complete statement or after a separator.
     fn comment(&mut self) -> String {
         if self.d.chance(self.st.comments, 1000) {
             let texts = ["TODO check", "see spec 3.2", "width: 8", "a < b ? x : y", "FIXME {2{x}}", "next state", "default", "begin end"];
@@ -304,7 +308,6 @@ impl<'a> G<'a> {
             if !on || s.len() <= 4 {
                 return s;
             }
-            // underscore separators every 4 digits from the right
             let mut out = String::new();
             let n = s.len();
             for (i, c) in s.chars().enumerate() {
@@ -344,7 +347,6 @@ impl<'a> G<'a> {
         match self.d.weighted(&[10, 3, 3, 1, 4]) {
             0 => self.pick_sig(av).name.clone(),
             1 => {
-                // bit select
                 let s = self.pick_sig(av).clone();
                 if s.w < 2 {
                     return s.name;
@@ -354,7 +356,6 @@ impl<'a> G<'a> {
                 format!("{}[{}]", s.name, i)
             }
             2 => {
-                // part select
                 let s = self.pick_sig(av).clone();
                 if s.w < 3 {
                     return s.name;
@@ -369,29 +370,14 @@ impl<'a> G<'a> {
                 }
             }
             3 => {
-                // variable index: the index is a k-bit slice with 2^k <= width
+                // variable index: a plain k-bit signal indexes a vector of >= 2^k bits
                 let s = self.pick_sig(av).clone();
                 let idx = self.pick_sig(av).clone();
-                if s.w < 2 {
-                    return s.name;
-                }
-                let k = (31 - s.w.leading_zeros()).min(idx.w).min(4);
-                if k == 0 {
+                if s.w < 2 || idx.w > 4 || (1u32 << idx.w) > s.w {
                     return s.name;
                 }
                 self.class("expr:variable-index");
-                let ix = if idx.w == k {
-                    idx.name.clone()
-                } else if k == 1 {
-                    format!("{}[0]", idx.name)
-                } else {
-                    format!("{}[{}:0]", idx.name, k - 1)
-                };
-                // a select of a select is not SystemVerilog: index with a plain name only
-                if ix.contains('[') {
-                    return format!("{}[{}]", s.name, self.d.below(s.w));
-                }
-                format!("{}[{}]", s.name, ix)
+                format!("{}[{}]", s.name, idx.name)
             }
             _ => {
                 let w = if self.d.chance(2, 3) { self.pick_sig(av).w } else { self.width() };
@@ -413,11 +399,12 @@ impl<'a> G<'a> {
         let ic = self.inline_comment();
         if self.st.sp {
             if self.d.chance(1, 25) && a.len() + b.len() > 30 {
-                // a line break inside a long expression
                 format!("{a}{ic} {op}\n            {b}")
             } else {
                 format!("{a}{ic} {op} {b}")
             }
+        } else if op.ends_with('^') && b.starts_with('~') {
+            format!("{a}{ic}{op} {b}")
         } else {
             format!("{a}{ic}{op}{b}")
         }
@@ -428,32 +415,53 @@ impl<'a> G<'a> {
         if depth == 0 || self.d.chance(1, 5) {
             return (self.leaf(av), 13);
         }
-        let kind = self.d.weighted(&[14, 4, 2, 2, 2, 2, 1, 1]);
+        let mut kind = self.d.weighted(&[14, 4, 2, 2, 2, 2, 1, 1]);
+        // the shape being shown is reached more often than it would be naturally
+        let mut forced_op: Option<&str> = None;
+        if !self.allow.is_empty() && self.d.chance(1, 3) {
+            if self.allow.contains(&Hz::LtGt) {
+                kind = 0;
+                forced_op = Some(if self.d.bool() { "<" } else { ">" });
+            } else if self.allow.contains(&Hz::CaseEq) {
+                kind = 0;
+                forced_op = Some(if self.d.bool() { "===" } else { "!==" });
+            } else if self.allow.contains(&Hz::XnorCaretTilde) {
+                kind = 0;
+                forced_op = Some("^~");
+            } else if self.allow.contains(&Hz::Cond) {
+                kind = 5;
+            } else if self.allow.contains(&Hz::Repl) {
+                kind = 6;
+            } else if self.allow.contains(&Hz::Cast) || self.allow.contains(&Hz::Inside) {
+                kind = 7;
+            }
+        }
         match kind {
             0 => {
-                // binary
                 #[rustfmt::skip]
                 let table: &[(&str, u8, u32)] = &[
                     ("+", 10, 8), ("-", 10, 8), ("*", 11, 3), ("&", 6, 6), ("|", 4, 6), ("^", 5, 6), ("~^", 5, 1),
                     ("<<", 9, 2), (">>", 9, 2), (">>>", 9, 2), ("<<<", 9, 1),
                     ("==", 7, 2), ("!=", 7, 2), ("<=", 8, 2), (">=", 8, 2), ("<", 8, 2), (">", 8, 2),
                     ("&&", 3, 2), ("||", 2, 2), ("/", 11, 1), ("%", 11, 1), ("**", 12, 1), ("===", 7, 1), ("!==", 7, 1),
+                    ("==?", 7, 1), ("^~", 5, 1),
                 ];
                 let weights: Vec<u32> = table.iter().map(|t| t.2).collect();
                 let mut k = self.d.weighted(&weights);
+                if let Some(f) = forced_op {
+                    k = table.iter().position(|t| t.0 == f).unwrap_or(k);
+                }
                 let mut op = table[k].0;
                 if op == "<" || op == ">" {
                     if !self.hz(Hz::LtGt, 1, 1) {
                         k = if op == "<" { 13 } else { 14 };
                         op = table[k].0;
                     }
-                } else if op == "===" || op == "!==" {
-                    if !self.hz(Hz::CaseEq, 1, 1) {
-                        k = if op == "===" { 11 } else { 12 };
-                        op = table[k].0;
-                    }
-                } else if op == "**" && !self.hz(Hz::Pow, 1, 1) {
-                    k = 2;
+                } else if (op == "===" || op == "!==") && !self.hz(Hz::CaseEq, 1, 1) {
+                    k = if op == "===" { 11 } else { 12 };
+                    op = table[k].0;
+                } else if op == "^~" && !self.hz(Hz::XnorCaretTilde, 1, 1) {
+                    k = 6;
                     op = table[k].0;
                 }
                 let prec = table[k].1;
@@ -463,8 +471,7 @@ impl<'a> G<'a> {
                 let a = self.wrap(a, pa, prec);
                 let (b, pb) = match op {
                     "<<" | ">>" | ">>>" | "<<<" => {
-                        // small shift amounts keep the result interesting
-                        if self.d.chance(1, 2) {
+                        if self.d.chance(1, 2) || av.is_empty() {
                             (format!("{}", self.d.below(9)), 13)
                         } else {
                             let s = self.pick_sig(av).clone();
@@ -477,32 +484,41 @@ impl<'a> G<'a> {
                         (format!("({b} | 1'b1)"), 13)
                     }
                     "**" => (format!("{}", self.d.below(4)), 13),
+                    "^~" if !av.is_empty() => {
+                        let x = self.pick_sig(av).name.clone();
+                        let y = self.pick_sig(av).name.clone();
+                        self.ops += 1;
+                        (self.bin("+", x, y), 10)
+                    }
+                    "==?" => {
+                        // wildcard pattern on the right
+                        let w = self.d.range(2, 6) as usize;
+                        let mut b = String::new();
+                        for _ in 0..w {
+                            b.push(*self.d.pick(&['0', '1', 'x', '1', '0']));
+                        }
+                        (format!("{w}'b{b}"), 13)
+                    }
                     _ => self.expr(av, funcs, depth - 1),
                 };
-                // left-associative: the right operand needs strictly higher precedence
                 let b = self.wrap(b, pb, prec + 1);
                 (self.bin(op, a, b), prec)
             }
             1 => {
-                // unary
                 let ops = ["~", "-", "!", "&", "|", "^", "~&", "~|", "~^"];
                 let op = ops[self.d.weighted(&[6, 3, 3, 1, 2, 2, 1, 1, 1])];
                 self.ops += 1;
                 self.class(&format!("unary:{op}"));
                 let (a, pa) = self.expr(av, funcs, depth - 1);
                 let a = if pa < 13 { format!("({a})") } else { a };
-                // a unary operator directly after a binary one is hard to read (and `& &x`
-                // needs the space): people write the parentheses
-                if op == "~" || op == "!" { (format!("{op}{a}"), 13) } else { (format!("({op}{a})"), 13) }
+                if op == "~" || op == "!" { (format!("{op}{a}"), 12) } else { (format!("({op}{a})"), 13) }
             }
             2 => {
-                // concatenation
                 self.ops += 1;
                 self.class("expr:concat");
                 let n = self.d.range(2, 3);
                 let mut parts = vec![];
                 for _ in 0..n {
-                    // operands of a concatenation must be sized: no unsized literals
                     let p = if self.d.chance(2, 3) || av.is_empty() {
                         if av.is_empty() || self.d.chance(1, 4) {
                             let w = self.d.range(1, 8) as u32;
@@ -525,7 +541,6 @@ impl<'a> G<'a> {
                 (format!("{{{}}}", parts.join(sep)), 13)
             }
             3 => {
-                // $signed / $unsigned
                 self.ops += 1;
                 let f = if self.d.bool() { "$signed" } else { "$unsigned" };
                 self.class(&format!("expr:{f}"));
@@ -533,7 +548,6 @@ impl<'a> G<'a> {
                 (format!("{f}({a})"), 13)
             }
             4 => {
-                // function call
                 if funcs.is_empty() {
                     return (self.leaf(av), 13);
                 }
@@ -548,7 +562,6 @@ impl<'a> G<'a> {
                 (format!("{}({})", f.name, args.join(", ")), 13)
             }
             5 => {
-                // conditional operator
                 if !self.hz(Hz::Cond, 1, 1) {
                     return self.expr(av, funcs, depth - 1);
                 }
@@ -563,7 +576,6 @@ impl<'a> G<'a> {
                 (format!("{c} ? {a} : {b}"), 1)
             }
             6 => {
-                // replication
                 if !self.hz(Hz::Repl, 1, 1) {
                     return self.expr(av, funcs, depth - 1);
                 }
@@ -575,8 +587,8 @@ impl<'a> G<'a> {
                 (format!("{{{n}{{{s}}}}}"), 13)
             }
             _ => {
-                // size cast / inside
-                if self.d.bool() {
+                let cast = if self.allow.contains(&Hz::Cast) { true } else if self.allow.contains(&Hz::Inside) { false } else { self.d.bool() };
+                if cast {
                     if !self.hz(Hz::Cast, 1, 1) {
                         return self.expr(av, funcs, depth - 1);
                     }
@@ -586,7 +598,7 @@ impl<'a> G<'a> {
                     let (a, _) = self.expr(av, funcs, depth - 1);
                     (format!("{w}'({a})"), 13)
                 } else {
-                    if !self.hz(Hz::Inside, 1, 1) {
+                    if av.is_empty() || !self.hz(Hz::Inside, 1, 1) {
                         return self.expr(av, funcs, depth - 1);
                     }
                     self.ops += 1;
@@ -604,7 +616,7 @@ impl<'a> G<'a> {
     /// as people write `y = (a <= b);`).
     fn rhs(&mut self, av: &[Sig], funcs: &[FuncInfo], depth: u32) -> String {
         let (e, p) = self.expr(av, funcs, depth);
-        if p <= 8 && p >= 7 || p == 1 && self.d.bool() { format!("({e})") } else { e }
+        if (7..=8).contains(&p) || p == 1 && self.d.bool() { format!("({e})") } else { e }
     }
 
     /// 1-bit-ish condition.
@@ -644,31 +656,37 @@ impl<'a> G<'a> {
 
     fn block_open(&mut self, out: &mut Vec<String>, level: usize, head: &str) {
         if self.st.begin_nl {
-            lines_push(out, self.st.ind, level, head);
-            lines_push(out, self.st.ind, level, "begin");
+            push(out, self.st.ind, level, head);
+            push(out, self.st.ind, level, "begin");
         } else {
-            lines_push(out, self.st.ind, level, &format!("{head} begin"));
+            push(out, self.st.ind, level, &format!("{head} begin"));
         }
     }
 
     /// `targets` have all been assigned before (no latch, no read of an
     /// unassigned value); statements may read `av` and the targets.
+    #[allow(clippy::too_many_arguments)]
     fn stmts(&mut self, out: &mut Vec<String>, level: usize, targets: &[Sig], av: &[Sig], funcs: &[FuncInfo], depth: u32, nb: bool) {
-        let n = self.d.range(1, 3);
+        let n = self.d.range(0, 2);
         for _ in 0..n {
             self.stmt(out, level, targets, av, funcs, depth, nb);
         }
     }
 
+    fn full_assign(&mut self, t: &Sig, av: &[Sig], funcs: &[FuncInfo], nb: bool) -> String {
+        let op = if nb { "<=" } else { "=" };
+        let e = if self.d.chance(1, 4) {
+            if self.d.bool() { "'0".to_string() } else { self.lit(t.w) }
+        } else {
+            self.rhs(av, funcs, 2)
+        };
+        format!("{} {op} {e};", t.name)
+    }
+
     fn assign_stmt(&mut self, targets: &[Sig], av: &[Sig], funcs: &[FuncInfo], nb: bool) -> String {
         let t = targets[self.d.below_usize(targets.len())].clone();
         let mut all: Vec<Sig> = av.to_vec();
-        if !nb {
-            all.extend(targets.iter().cloned());
-        } else {
-            // a register may read itself (old value)
-            all.extend(targets.iter().cloned());
-        }
+        all.extend(targets.iter().cloned());
         let op = if nb { "<=" } else { "=" };
         let lhs = if t.w >= 2 && self.d.chance(1, 5) {
             self.class("stmt:partial-assign");
@@ -693,12 +711,20 @@ impl<'a> G<'a> {
         format!("{lhs} {op} {r};{c}")
     }
 
+    #[allow(clippy::too_many_arguments)]
     fn stmt(&mut self, out: &mut Vec<String>, level: usize, targets: &[Sig], av: &[Sig], funcs: &[FuncInfo], depth: u32, nb: bool) {
-        let kind = if depth == 0 { 0 } else { self.d.weighted(&[5, 4, 3, 2]) };
+        let mut kind = if depth == 0 { 0 } else { self.d.weighted(&[5, 4, 3, 2]) };
+        if depth > 0 && !self.allow.is_empty() && self.d.chance(1, 2) {
+            if self.allow.contains(&Hz::ForLe) || self.allow.contains(&Hz::ForStep) {
+                kind = 3;
+            } else if self.allow.contains(&Hz::Casez) || self.allow.contains(&Hz::CaseArmBlock) {
+                kind = 2;
+            }
+        }
         match kind {
             0 => {
                 let s = self.assign_stmt(targets, av, funcs, nb);
-                lines_push(out, self.st.ind, level, &s);
+                push(out, self.st.ind, level, &s);
             }
             1 => {
                 self.class("stmt:if");
@@ -710,75 +736,80 @@ impl<'a> G<'a> {
                     if i > 0 {
                         self.class("stmt:else-if");
                     }
-                    self.arm(out, level, &head, targets, av, funcs, depth - 1, nb);
+                    self.arm(out, level, &head, targets, &[], av, funcs, depth - 1, nb);
                 }
                 if has_else {
                     self.class("stmt:else");
-                    self.arm(out, level, "else", targets, av, funcs, depth - 1, nb);
+                    self.arm(out, level, "else", targets, &[], av, funcs, depth - 1, nb);
                 }
             }
-            2 => {
-                self.class("stmt:case");
-                // selector: a narrow signal or slice
-                let s = self.pick_sig(av).clone();
-                let sw = s.w.min(3);
-                let sel = if s.w == sw {
-                    s.name.clone()
-                } else if sw == 1 {
-                    format!("{}[0]", s.name)
-                } else {
-                    format!("{}[{}:0]", s.name, sw - 1)
-                };
-                let z = self.hz(Hz::Casez, 1, 15);
-                let kw = if z {
-                    if self.d.bool() { "casez" } else { "casex" }
-                } else if self.d.chance(1, 6) {
-                    self.class("stmt:unique-case");
-                    "unique case"
-                } else {
-                    "case"
-                };
-                lines_push(out, self.st.ind, level, &format!("{kw} ({sel})"));
-                let nvals = 1u32 << sw;
-                let mut vals: Vec<u32> = (0..nvals).collect();
-                // random subset, in order
-                let keep = self.d.range(1, nvals.min(4) as i64) as usize;
-                while vals.len() > keep {
-                    let i = self.d.below_usize(vals.len());
-                    vals.remove(i);
-                }
-                let mut i = 0;
-                while i < vals.len() {
-                    let mut label = if z && i == 0 && sw >= 2 {
-                        // wildcard item
-                        let q = if kw == "casez" { '?' } else { 'x' };
-                        let mut b = format!("{:0w$b}", vals[i], w = sw as usize);
-                        b.replace_range(b.len() - 1.., &q.to_string());
-                        format!("{sw}'b{b}")
-                    } else {
-                        format!("{sw}'d{}", vals[i])
-                    };
-                    if i + 1 < vals.len() && self.d.chance(1, 4) {
-                        self.class("stmt:case-multi-item");
-                        label = format!("{label}, {sw}'d{}", vals[i + 1]);
-                        i += 1;
-                    }
-                    self.case_arm(out, level + 1, &format!("{label}:"), targets, av, funcs, depth - 1, nb);
-                    i += 1;
-                }
-                self.case_arm(out, level + 1, "default:", targets, av, funcs, depth - 1, nb);
-                lines_push(out, self.st.ind, level, "endcase");
-            }
-            _ => {
-                // for loop over the bits of a target
-                if !self.hz(Hz::ForStmt, 1, 1) {
-                    let s = self.assign_stmt(targets, av, funcs, nb);
-                    lines_push(out, self.st.ind, level, &s);
-                    return;
-                }
-                self.for_stmt(out, level, targets, av, nb);
-            }
+            2 => self.case_stmt(out, level, targets, &[], av, funcs, depth, nb),
+            _ => self.for_stmt(out, level, targets, av, nb),
         }
+    }
+
+    /// `full`: targets that every arm must assign completely (the statement
+    /// is the only driver on this path).
+    #[allow(clippy::too_many_arguments)]
+    fn case_stmt(&mut self, out: &mut Vec<String>, level: usize, targets: &[Sig], full: &[Sig], av: &[Sig], funcs: &[FuncInfo], depth: u32, nb: bool) {
+        self.class("stmt:case");
+        let s = self.pick_sig(av).clone();
+        let sw = s.w.min(3);
+        let sel = if s.w == sw {
+            s.name.clone()
+        } else if sw == 1 {
+            format!("{}[0]", s.name)
+        } else {
+            format!("{}[{}:0]", s.name, sw - 1)
+        };
+        let q = sw >= 2 && self.hz(Hz::Casez, 1, 15);
+        let wild = !q && sw >= 2 && self.d.chance(1, 8);
+        let kw = if q {
+            "casez"
+        } else if wild {
+            self.class("stmt:casex-casez-wildcard");
+            if self.d.bool() { "casex" } else { "casez" }
+        } else if self.d.chance(1, 6) {
+            self.class("stmt:unique-case");
+            *self.d.pick(&["unique case", "priority case", "unique0 case"])
+        } else {
+            "case"
+        };
+        push(out, self.st.ind, level, &format!("{kw} ({sel})"));
+        let nvals = 1u32 << sw;
+        let mut vals: Vec<u32> = (0..nvals).collect();
+        let keep = self.d.range(1, nvals.min(4) as i64) as usize;
+        while vals.len() > keep {
+            let i = self.d.below_usize(vals.len());
+            vals.remove(i);
+        }
+        let mut i = 0;
+        while i < vals.len() {
+            let mut label = if (q || wild) && i == 0 {
+                // wildcard in the least significant digit
+                let ch = if q {
+                    '?'
+                } else if kw == "casex" {
+                    'x'
+                } else {
+                    'z'
+                };
+                let mut b = format!("{:0w$b}", vals[i], w = sw as usize);
+                b.replace_range(b.len() - 1.., &ch.to_string());
+                format!("{sw}'b{b}")
+            } else {
+                format!("{sw}'d{}", vals[i])
+            };
+            if i + 1 < vals.len() && self.d.chance(1, 4) {
+                self.class("stmt:case-multi-item");
+                label = format!("{label}, {sw}'d{}", vals[i + 1]);
+                i += 1;
+            }
+            self.case_arm(out, level + 1, &format!("{label}:"), targets, full, av, funcs, depth.saturating_sub(1), nb);
+            i += 1;
+        }
+        self.case_arm(out, level + 1, "default:", targets, full, av, funcs, depth.saturating_sub(1), nb);
+        push(out, self.st.ind, level, "endcase");
     }
 
     fn for_stmt(&mut self, out: &mut Vec<String>, level: usize, targets: &[Sig], av: &[Sig], nb: bool) {
@@ -786,7 +817,7 @@ impl<'a> G<'a> {
         let srcs: Vec<Sig> = av.iter().filter(|s| s.w >= t.w).cloned().collect();
         if t.w < 2 || srcs.is_empty() {
             let s = format!("{} {} {};", t.name, if nb { "<=" } else { "=" }, self.lit(t.w));
-            lines_push(out, self.st.ind, level, &s);
+            push(out, self.st.ind, level, &s);
             return;
         }
         self.class("stmt:for");
@@ -802,6 +833,9 @@ impl<'a> G<'a> {
             head = format!("for (int {v} = 0; {v} < {n}; {v} = {v} + 2)");
         } else if self.d.chance(1, 3) {
             head = format!("for (int {v} = 0; {v} < {n}; {v} = {v} + 1)");
+        } else if self.d.chance(1, 4) {
+            self.class("stmt:for-integer-var");
+            head = format!("for (integer {v} = 0; {v} < {n}; {v}++)");
         }
         let body = match self.d.below(3) {
             0 => format!("{}[{v}] {op} {}[{v}] ^ {}[{} - {v}];", t.name, a.name, b.name, n - 1),
@@ -811,25 +845,25 @@ impl<'a> G<'a> {
         self.ops += 2;
         if self.d.chance(3, 4) {
             self.block_open(out, level, &head);
-            lines_push(out, self.st.ind, level + 1, &body);
-            lines_push(out, self.st.ind, level, "end");
+            push(out, self.st.ind, level + 1, &body);
+            push(out, self.st.ind, level, "end");
         } else {
-            lines_push(out, self.st.ind, level, &head);
-            lines_push(out, self.st.ind, level + 1, &body);
+            push(out, self.st.ind, level, &head);
+            push(out, self.st.ind, level + 1, &body);
         }
     }
 
-    /// Body of an if / else arm: `begin … end` or a single statement.
-    fn arm(&mut self, out: &mut Vec<String>, level: usize, head: &str, targets: &[Sig], av: &[Sig], funcs: &[FuncInfo], depth: u32, nb: bool) {
-        // `else` directly after `end` on one line when the style says so
-        let single = self.d.chance(1, 3);
+    /// Body of an if / else arm.  `full` targets are assigned completely first.
+    #[allow(clippy::too_many_arguments)]
+    fn arm(&mut self, out: &mut Vec<String>, level: usize, head: &str, targets: &[Sig], full: &[Sig], av: &[Sig], funcs: &[FuncInfo], depth: u32, nb: bool) {
+        let single = full.len() <= 1 && self.d.chance(1, 3);
         if single {
-            let s = self.assign_stmt(targets, av, funcs, nb);
+            let s = if full.len() == 1 { self.full_assign(&full[0], av, funcs, nb) } else { self.assign_stmt(targets, av, funcs, nb) };
             if self.d.bool() {
-                lines_push(out, self.st.ind, level, &format!("{head} {s}"));
+                push(out, self.st.ind, level, &format!("{head} {s}"));
             } else {
-                lines_push(out, self.st.ind, level, head);
-                lines_push(out, self.st.ind, level + 1, &s);
+                push(out, self.st.ind, level, head);
+                push(out, self.st.ind, level + 1, &s);
             }
             return;
         }
@@ -840,48 +874,89 @@ impl<'a> G<'a> {
         } else {
             self.block_open(out, level, head);
         }
+        for t in full {
+            let s = self.full_assign(t, av, funcs, nb);
+            push(out, self.st.ind, level + 1, &s);
+        }
+        if full.is_empty() {
+            self.stmt(out, level + 1, targets, av, funcs, depth, nb);
+        }
         self.stmts(out, level + 1, targets, av, funcs, depth, nb);
-        lines_push(out, self.st.ind, level, "end");
+        push(out, self.st.ind, level, "end");
     }
 
-    fn case_arm(&mut self, out: &mut Vec<String>, level: usize, label: &str, targets: &[Sig], av: &[Sig], funcs: &[FuncInfo], depth: u32, nb: bool) {
-        if self.hz(Hz::CaseArmBlock, 1, 3) {
+    #[allow(clippy::too_many_arguments)]
+    fn case_arm(&mut self, out: &mut Vec<String>, level: usize, label: &str, targets: &[Sig], full: &[Sig], av: &[Sig], funcs: &[FuncInfo], depth: u32, nb: bool) {
+        let _ = depth;
+        if full.len() <= 1 && self.hz(Hz::CaseArmBlock, 1, 3) {
             self.class("stmt:case-arm-block");
             self.block_open(out, level, label);
-            let a = self.assign_stmt(targets, av, funcs, nb);
-            lines_push(out, self.st.ind, level + 1, &a);
+            let a = if full.len() == 1 { self.full_assign(&full[0], av, funcs, nb) } else { self.assign_stmt(targets, av, funcs, nb) };
+            push(out, self.st.ind, level + 1, &a);
             let b = self.assign_stmt(targets, av, funcs, nb);
-            lines_push(out, self.st.ind, level + 1, &b);
-            lines_push(out, self.st.ind, level, "end");
+            push(out, self.st.ind, level + 1, &b);
+            push(out, self.st.ind, level, "end");
             return;
         }
+        // one statement per arm
+        let one = |g: &mut Self| -> String { if full.len() == 1 { g.full_assign(&full[0], av, funcs, nb) } else { g.assign_stmt(targets, av, funcs, nb) } };
         match self.d.weighted(&[5, 2, 2]) {
             0 => {
-                let s = self.assign_stmt(targets, av, funcs, nb);
-                lines_push(out, self.st.ind, level, &format!("{label} {s}"));
+                let s = one(self);
+                push(out, self.st.ind, level, &format!("{label} {s}"));
             }
             1 => {
-                // begin … end around one statement
                 self.class("stmt:case-arm-begin-end");
                 self.block_open(out, level, label);
-                let s = self.assign_stmt(targets, av, funcs, nb);
-                lines_push(out, self.st.ind, level + 1, &s);
-                lines_push(out, self.st.ind, level, "end");
+                let s = one(self);
+                push(out, self.st.ind, level + 1, &s);
+                push(out, self.st.ind, level, "end");
             }
             _ => {
-                if depth == 0 {
-                    let s = self.assign_stmt(targets, av, funcs, nb);
-                    lines_push(out, self.st.ind, level, &format!("{label} {s}"));
-                    return;
-                }
-                // an if / else as the arm
                 self.class("stmt:case-arm-if");
                 let c = self.cond(av, funcs);
-                lines_push(out, self.st.ind, level, label);
-                let s1 = self.assign_stmt(targets, av, funcs, nb);
-                let s2 = self.assign_stmt(targets, av, funcs, nb);
-                lines_push(out, self.st.ind, level + 1, &format!("if ({c}) {s1}"));
-                lines_push(out, self.st.ind, level + 1, &format!("else {s2}"));
+                push(out, self.st.ind, level, label);
+                let s1 = one(self);
+                let s2 = one(self);
+                push(out, self.st.ind, level + 1, &format!("if ({c}) {s1}"));
+                push(out, self.st.ind, level + 1, &format!("else {s2}"));
+            }
+        }
+    }
+
+    /// A single statement that assigns every target on every path
+    /// (the whole body of an always block).
+    fn full_statement(&mut self, out: &mut Vec<String>, level: usize, targets: &[Sig], av: &[Sig], funcs: &[FuncInfo], nb: bool) {
+        let single = targets.len() == 1;
+        let t0 = targets[0].clone();
+        let can_for = single && t0.w >= 2 && av.iter().any(|s| s.w >= t0.w);
+        match self.d.weighted(&[5, if single { 4 } else { 0 }, if can_for { 2 } else { 0 }, if single { 2 } else { 0 }]) {
+            0 => {
+                self.class("stmt:if");
+                let arms = self.d.range(1, 3);
+                for i in 0..arms {
+                    let c = self.cond(av, funcs);
+                    let head = if i == 0 { format!("if ({c})") } else { format!("else if ({c})") };
+                    if i > 0 {
+                        self.class("stmt:else-if");
+                    }
+                    self.arm(out, level, &head, targets, targets, av, funcs, 2, nb);
+                }
+                self.class("stmt:else");
+                self.arm(out, level, "else", targets, targets, av, funcs, 2, nb);
+            }
+            1 => self.case_stmt(out, level, targets, targets, av, funcs, 2, nb),
+            2 => {
+                // the loop covers every bit (only with the plain `< n; ++` header)
+                let save = self.allow.clone();
+                self.allow.remove(&Hz::ForLe);
+                self.allow.remove(&Hz::ForStep);
+                self.for_stmt(out, level, targets, av, nb);
+                self.allow = save;
+            }
+            _ => {
+                let s = self.full_assign(&t0, av, funcs, nb);
+                push(out, self.st.ind, level, &s);
             }
         }
     }
@@ -909,21 +984,14 @@ impl<'a> G<'a> {
         let sg = if s.signed { "signed " } else { "" };
         if kw.is_empty() { format!("{sg}{d}") } else { format!("{kw} {sg}{d}") }
     }
-}
 
-#[derive(Clone, Debug)]
-pub struct FuncInfo {
-    name: String,
-    args: usize,
-}
+    // ----- functions -----------------------------------------------------------------
 
-// ----- modules -------------------------------------------------------------------------
-
-impl<'a> G<'a> {
     fn function(&mut self, out: &mut Vec<String>, wparam: Option<(&str, u32)>) -> FuncInfo {
         self.procs += 1;
         self.class("item:function");
-        let name = self.fresh(*self.d.pick(&["calc", "mix", "fold", "pick_v", "enc", "f"]));
+        let base = *self.d.pick(&["calc", "mix", "fold", "pick_v", "enc", "f"]);
+        let name = self.fresh(base);
         let nargs = self.d.range(1, 3) as usize;
         let mut args = vec![];
         for i in 0..nargs {
@@ -935,8 +1003,7 @@ impl<'a> G<'a> {
             });
         }
         let mut rw = self.width().clamp(2, 32);
-        let scalar = self.hz(Hz::Func1Bit, 1, 8);
-        if scalar {
+        if self.hz(Hz::Func1Bit, 1, 8) {
             rw = 1;
         }
         let ret = Sig {
@@ -946,15 +1013,13 @@ impl<'a> G<'a> {
         };
         let rt = self.type_text("logic", &ret, wparam);
         let auto = if self.d.chance(3, 4) { "automatic " } else { "" };
-        let arg_txt: Vec<String> = args
-            .iter()
-            .map(|a| {
-                let t = self.type_text("logic", a, None);
-                format!("input {t}{}", a.name)
-            })
-            .collect();
-        lines_push(out, self.st.ind, 1, &format!("function {auto}{rt}{name}({});", arg_txt.join(", ")));
-        let style = self.d.weighted(&[5, 3, 2]);
+        let mut arg_txt: Vec<String> = vec![];
+        for a in &args {
+            let t = self.type_text("logic", a, None);
+            arg_txt.push(format!("input {t}{}", a.name));
+        }
+        push(out, self.st.ind, 1, &format!("function {auto}{rt}{name}({});", arg_txt.join(", ")));
+        let style = self.d.weighted(&[5, 3, 2, 2]);
         if self.hz(Hz::FuncLocal, 1, 6) {
             let t = Sig {
                 name: format!("t{}", self.uniq),
@@ -962,57 +1027,64 @@ impl<'a> G<'a> {
                 signed: false,
             };
             let tt = self.type_text("logic", &t, None);
-            lines_push(out, self.st.ind, 2, &format!("{tt}{};", t.name));
+            push(out, self.st.ind, 2, &format!("{tt}{};", t.name));
             let e = self.rhs(&args, &[], 2);
-            lines_push(out, self.st.ind, 2, &format!("{} = {e};", t.name));
+            push(out, self.st.ind, 2, &format!("{} = {e};", t.name));
             let mut av2 = args.clone();
             av2.push(t);
             let e2 = self.rhs(&av2, &[], 1);
-            lines_push(out, self.st.ind, 2, &format!("return {e2};"));
-        } else if self.hz(Hz::FuncNameAssign, 1, 5) {
-            let e = self.rhs(&args, &[], 2);
-            lines_push(out, self.st.ind, 2, &format!("{name} = {e};"));
+            push(out, self.st.ind, 2, &format!("return {e2};"));
         } else if style == 0 {
             let e = self.rhs(&args, &[], 3);
             let c = self.comment();
-            lines_push(out, self.st.ind, 2, &format!("return {e};{c}"));
+            push(out, self.st.ind, 2, &format!("return {e};{c}"));
         } else if style == 1 {
-            // if / else with a return in both
             self.class("func:if-return");
             let c = self.cond(&args, &[]);
             let e1 = self.rhs(&args, &[], 2);
             let e2 = self.rhs(&args, &[], 2);
             self.block_open(out, 2, &format!("if ({c})"));
-            lines_push(out, self.st.ind, 3, &format!("return {e1};"));
-            lines_push(out, self.st.ind, 2, "end else begin");
-            lines_push(out, self.st.ind, 3, &format!("return {e2};"));
-            lines_push(out, self.st.ind, 2, "end");
-        } else {
-            // case with returns
+            push(out, self.st.ind, 3, &format!("return {e1};"));
+            push(out, self.st.ind, 2, "end else begin");
+            push(out, self.st.ind, 3, &format!("return {e2};"));
+            push(out, self.st.ind, 2, "end");
+        } else if style == 2 {
             self.class("func:case-return");
             let s = args[0].clone();
             let sel = if s.w == 1 { s.name.clone() } else { format!("{}[1:0]", s.name) };
             let sw = s.w.min(2);
-            lines_push(out, self.st.ind, 2, &format!("case ({sel})"));
+            push(out, self.st.ind, 2, &format!("case ({sel})"));
             for v in 0..(1u32 << sw) - 1 {
                 let e = self.rhs(&args, &[], 2);
-                lines_push(out, self.st.ind, 3, &format!("{sw}'d{v}: return {e};"));
+                push(out, self.st.ind, 3, &format!("{sw}'d{v}: return {e};"));
             }
             let e = self.rhs(&args, &[], 1);
-            lines_push(out, self.st.ind, 3, &format!("default: return {e};"));
-            lines_push(out, self.st.ind, 2, "endcase");
+            push(out, self.st.ind, 3, &format!("default: return {e};"));
+            push(out, self.st.ind, 2, "endcase");
+        } else {
+            // result through the function's name, refined by an if
+            self.class("func:name-assignment");
+            let e = self.rhs(&args, &[], 2);
+            push(out, self.st.ind, 2, &format!("{name} = {e};"));
+            if self.d.bool() {
+                let c = self.cond(&args, &[]);
+                let e2 = self.rhs(&args, &[], 2);
+                push(out, self.st.ind, 2, &format!("if ({c}) {name} = {e2};"));
+            }
         }
-        lines_push(out, self.st.ind, 1, "endfunction");
+        push(out, self.st.ind, 1, "endfunction");
         out.push(String::new());
         FuncInfo { name, args: nargs }
     }
+
+    // ----- modules -------------------------------------------------------------------
 
     /// One module; `children` may be instantiated.
     fn module(&mut self, name: &str, children: &[ModInfo], is_top: bool, size: u32, with_ff: bool) -> (Vec<String>, ModInfo) {
         let mut out: Vec<String> = vec![];
         // ---- parameters
         let mut wparam: Option<(String, u32)> = None;
-        let mut cparam: Option<(String, u32, u32)> = None; // typed constant parameter (name, width, value)
+        let mut cparam: Option<(String, u32, u32)> = None;
         let mut iparam: Option<(String, u32)> = None;
         let mut params_txt: Vec<String> = vec![];
         if self.d.chance(1, 3) {
@@ -1020,12 +1092,8 @@ impl<'a> G<'a> {
             let n = *self.d.pick(&["WIDTH", "W", "DW", "N"]);
             wparam = Some((n.to_string(), w));
             self.class("param:width");
-            if self.hz(Hz::UntypedParam, 1, 3) {
-                params_txt.push(format!("parameter {n} = {w}"));
-            } else {
-                let ty = *self.d.pick(&["int", "int unsigned", "int"]);
-                params_txt.push(format!("parameter {ty} {n} = {w}"));
-            }
+            let ty = *self.d.pick(&["int", "int unsigned", "int"]);
+            params_txt.push(format!("parameter {ty} {n} = {w}"));
         }
         if self.d.chance(1, 4) {
             let w = self.d.range(2, 8) as u32;
@@ -1035,7 +1103,8 @@ impl<'a> G<'a> {
             self.class("param:typed-vector");
             params_txt.push(format!("parameter logic [{}:0] {n} = {w}'d{v}", w - 1));
         }
-        if self.d.chance(1, 4) {
+        let force_iparam = !is_top && self.allow.contains(&Hz::InstParam);
+        if self.d.chance(1, 4) || force_iparam {
             let v = self.d.range(0, 9) as u32;
             let n = *self.d.pick(&["OFFSET", "MODE", "STEP_N", "P"]);
             iparam = Some((n.to_string(), v));
@@ -1049,7 +1118,10 @@ impl<'a> G<'a> {
         let wp = wparam.as_ref().map(|(n, w)| (n.as_str(), *w));
 
         // ---- ports
-        let n_in = self.d.range(1, 4) as usize;
+        let mut n_in = self.d.range(1, 4) as usize;
+        if self.allow.contains(&Hz::PortInherit) {
+            n_in = n_in.max(2);
+        }
         let n_out = self.d.range(1, 3) as usize;
         let mut inputs: Vec<Sig> = vec![];
         let mut outputs: Vec<Sig> = vec![];
@@ -1068,7 +1140,14 @@ impl<'a> G<'a> {
             } else {
                 format!("{}_{}", ["p", "q", "r", "s"][i], name)
             };
-            let signed = self.d.chance(1, 4);
+            let mut signed = self.d.chance(1, 4);
+            if i > 0 && self.allow.contains(&Hz::PortInherit) {
+                w = inputs[i - 1].w;
+                signed = inputs[i - 1].signed;
+            }
+            if i == 0 && self.allow.contains(&Hz::Unpacked) {
+                w = 2;
+            }
             if signed {
                 self.class("port:signed-input");
             }
@@ -1135,21 +1214,21 @@ impl<'a> G<'a> {
             if kw == "bit" {
                 self.class("port-style:input bit");
             }
-            let t = self.type_text(kw, s, wp);
+            let mut t = self.type_text(kw, s, wp);
+            if s.w >= 2 && self.hz(Hz::DimNonZero, 1, 25) {
+                let sg = if s.signed { "signed " } else { "" };
+                t = if kw.is_empty() { format!("{sg}[{}:1] ", s.w) } else { format!("{kw} {sg}[{}:1] ", s.w) };
+            }
             let pad = if self.st.align { " " } else { "" };
             port_txt.push(format!("input {pad}{t}{}", s.name));
             prev = Some((s.w, s.signed));
         }
-        // how each output is driven decides whether it may be a net
-        // 0 = assign, 1 = always_comb target (variable), 2 = instance, 3 = generate-for
-        let mut out_kind: Vec<u32> = vec![];
-        for _ in &outputs {
-            out_kind.push(0);
-        }
+        // 0 = continuous assignment / instance / generate (may be a net), 1 = procedural
+        let mut out_kind: Vec<u32> = vec![0; outputs.len()];
         let mut port_out_idx = vec![];
         for s in &outputs {
             port_out_idx.push(port_txt.len());
-            port_txt.push(s.name.clone()); // filled in below
+            port_txt.push(s.name.clone());
         }
 
         // ---- body: a chain of items, each defining new signals from earlier ones
@@ -1160,11 +1239,14 @@ impl<'a> G<'a> {
         let mut av: Vec<Sig> = inputs.clone();
         let mut funcs: Vec<FuncInfo> = vec![];
 
-        // localparams
-        let n_lp = self.d.weighted(&[3, 3, 1]);
+        let mut n_lp = self.d.weighted(&[3, 3, 1]);
+        if self.allow.contains(&Hz::UntypedParam) {
+            n_lp = n_lp.max(1);
+        }
         for _ in 0..n_lp {
             let w = self.d.range(2, 12) as u32;
-            let n = self.fresh(*self.d.pick(&["K", "MAGIC", "C", "LIM"]));
+            let base = *self.d.pick(&["K", "MAGIC", "C", "LIM"]);
+            let n = self.fresh(base);
             let l = self.lit(w);
             if self.hz(Hz::UntypedParam, 1, 3) {
                 lps.push(format!("localparam {n} = {l};"));
@@ -1202,11 +1284,11 @@ impl<'a> G<'a> {
                 signed: true,
             });
         }
-        // constants are not valid selects bases for every tool: keep a list of real signals
-        let n_consts = av.len() - inputs.len();
 
-        // functions
-        let n_f = self.d.weighted(&[3, 3, 1]);
+        let mut n_f = self.d.weighted(&[3, 3, 1]);
+        if self.allow.contains(&Hz::Func1Bit) || self.allow.contains(&Hz::FuncLocal) {
+            n_f = n_f.max(1);
+        }
         for _ in 0..n_f {
             let f = self.function(&mut funcs_txt, wp);
             funcs.push(f);
@@ -1214,7 +1296,6 @@ impl<'a> G<'a> {
 
         // sequential state (finding Ff): registers updated from the inputs
         if with_ff {
-            self.used.insert(Hz::Ff);
             self.class("item:always_ff");
             self.procs += 1;
             let nreg = self.d.range(1, 2);
@@ -1238,60 +1319,83 @@ impl<'a> G<'a> {
             }
             let mut b: Vec<String> = vec![];
             self.block_open(&mut b, 1, &format!("always_ff @({ev})"));
+            let mut all = av.clone();
+            all.extend(regs.iter().cloned());
             if let Some((r, high, _)) = &rst {
                 let c = if *high { r.clone() } else { format!("!{r}") };
                 self.block_open(&mut b, 2, &format!("if ({c})"));
                 for s in &regs {
                     let v = if self.d.bool() { "'0".to_string() } else { self.lit(s.w) };
-                    lines_push(&mut b, self.st.ind, 3, &format!("{} <= {v};", s.name));
+                    push(&mut b, self.st.ind, 3, &format!("{} <= {v};", s.name));
                 }
-                lines_push(&mut b, self.st.ind, 2, "end else begin");
-                self.stmts(&mut b, 3, &regs, &av, &funcs, 2, true);
-                lines_push(&mut b, self.st.ind, 2, "end");
+                push(&mut b, self.st.ind, 2, "end else begin");
+                for s in &regs {
+                    let a = self.full_assign(s, &all, &funcs, true);
+                    push(&mut b, self.st.ind, 3, &a);
+                }
+                self.stmts(&mut b, 3, &regs, &all, &funcs, 2, true);
+                push(&mut b, self.st.ind, 2, "end");
             } else {
-                self.stmts(&mut b, 2, &regs, &av, &funcs, 2, true);
+                self.full_statement(&mut b, 2, &regs, &all, &funcs, true);
             }
-            lines_push(&mut b, self.st.ind, 1, "end");
+            push(&mut b, self.st.ind, 1, "end");
             b.push(String::new());
             items.extend(b);
             av.extend(regs);
         }
 
         let n_items = self.d.range(1, size as i64) as usize;
-        let mut pending_outputs: Vec<usize> = (0..outputs.len()).collect();
         let total = n_items + outputs.len();
         for step in 0..total {
-            // the last `outputs.len()` steps drive the outputs
             let drive_out = step >= n_items;
-            let target: Sig = if drive_out {
-                let oi = pending_outputs.remove(0);
-                outputs[oi].clone()
-            } else {
-                Sig {
+            let out_index = if drive_out { Some(step - n_items) } else { None };
+            let target: Sig = match out_index {
+                Some(oi) => outputs[oi].clone(),
+                None => Sig {
                     name: self.word(),
                     w: self.width(),
-                    signed: self.d.chance(1, 5),
-                }
+                    signed: self.d.chance(1, 5) || (self.allow.contains(&Hz::WireSigned) && self.d.chance(2, 3)),
+                },
             };
-            let out_index = if drive_out { outputs.iter().position(|o| o.name == target.name) } else { None };
             let real: Vec<Sig> = av.clone();
-            let kind = self.d.weighted(&[6, 5, 2, 2, if children.is_empty() { 0 } else { 3 }]);
+            let mut kind = self.d.weighted(&[6, 6, 2, 2, if children.is_empty() { 0 } else { 3 }, 1]);
+            if !self.allow.is_empty() && self.d.chance(1, 2) {
+                let a = &self.allow;
+                if a.contains(&Hz::AlwaysBody) || a.contains(&Hz::ForLe) || a.contains(&Hz::ForStep) || a.contains(&Hz::Casez) || a.contains(&Hz::CaseArmBlock) || a.contains(&Hz::CompoundAssign) {
+                    kind = 1;
+                } else if a.contains(&Hz::GenLabel) {
+                    kind = 2;
+                } else if (a.contains(&Hz::InstParam) || a.contains(&Hz::InstOrdered)) && !children.is_empty() {
+                    kind = 4;
+                } else if a.contains(&Hz::Unpacked) {
+                    kind = 5;
+                } else if a.contains(&Hz::WireInit) || a.contains(&Hz::WireSigned) {
+                    kind = 0;
+                }
+            }
             let mut decl_kw = "logic";
             match kind {
                 0 => {
-                    // continuous assignment
                     self.class("item:assign");
                     decl_kw = *self.d.pick(&["logic", "logic", "wire", "wire"]);
+                    if self.allow.contains(&Hz::WireInit) || self.allow.contains(&Hz::WireSigned) {
+                        decl_kw = "wire";
+                    }
                     let e = self.rhs(&real, &funcs, 3);
                     let c = self.comment();
                     if !drive_out && decl_kw == "wire" && self.hz(Hz::WireInit, 1, 4) {
                         let d = self.dim(target.w, wp);
-                        let sg = if target.signed { "signed " } else { "" };
-                        decls.push(format!("wire {sg}{d}{} = {e};{c}", target.name));
-                        av.push(target);
+                        let one = format!("wire {d}{} = {e};", target.name);
+                        let two = format!("wire {d}{}; assign {} = {e};", target.name, target.name);
+                        self.sim_rewrites.push((one.clone(), two));
+                        decls.push(format!("{one}{c}"));
+                        let mut t = target.clone();
+                        t.signed = false;
+                        av.push(t);
                         continue;
                     }
-                    if !drive_out && self.hz(Hz::AssignList, 1, 10) {
+                    if !drive_out && self.d.chance(1, 10) {
+                        self.class("item:assign-list");
                         let t2 = Sig {
                             name: self.word(),
                             w: self.width(),
@@ -1307,7 +1411,6 @@ impl<'a> G<'a> {
                     }
                 }
                 1 => {
-                    // always_comb
                     self.class("item:always_comb");
                     self.procs += 1;
                     decl_kw = *self.d.pick(&["logic", "logic", "reg"]);
@@ -1323,23 +1426,32 @@ impl<'a> G<'a> {
                         targets.push(t2);
                     }
                     let mut b: Vec<String> = vec![];
-                    if self.d.chance(1, 8) {
-                        // a single statement without begin / end
-                        let e = self.rhs(&real, &funcs, 3);
-                        lines_push(&mut b, self.st.ind, 1, &format!("always_comb {} = {e};", target.name));
-                        targets.truncate(1);
-                    } else {
-                        self.block_open(&mut b, 1, "always_comb");
-                        for t in &targets {
-                            let e = if self.d.chance(1, 3) {
-                                if self.d.bool() { "'0".to_string() } else { self.lit(t.w) }
-                            } else {
-                                self.rhs(&real, &funcs, 2)
-                            };
-                            lines_push(&mut b, self.st.ind, 2, &format!("{} = {e};", t.name));
+                    if self.hz(Hz::AlwaysBody, 2, 3) {
+                        // the usual style: defaults first, then the decisions — or a bare statement
+                        if targets.len() == 1 && self.d.chance(1, 4) {
+                            self.class("always_comb:bare-statement");
+                            let e = self.rhs(&real, &funcs, 3);
+                            push(&mut b, self.st.ind, 1, &format!("always_comb {} = {e};", target.name));
+                        } else {
+                            self.class("always_comb:defaults-then-decisions");
+                            self.block_open(&mut b, 1, "always_comb");
+                            for t in &targets {
+                                let s = self.full_assign(t, &real, &funcs, false);
+                                push(&mut b, self.st.ind, 2, &s);
+                            }
+                            self.stmt(&mut b, 2, &targets, &real, &funcs, 2, false);
+                            self.stmts(&mut b, 2, &targets, &real, &funcs, 2, false);
+                            push(&mut b, self.st.ind, 1, "end");
                         }
-                        self.stmts(&mut b, 2, &targets, &real, &funcs, 2, false);
-                        lines_push(&mut b, self.st.ind, 1, "end");
+                    } else {
+                        if self.d.chance(1, 6) {
+                            let l = self.fresh("p_blk");
+                            push(&mut b, self.st.ind, 1, &format!("always_comb begin : {l}"));
+                        } else {
+                            self.block_open(&mut b, 1, "always_comb");
+                        }
+                        self.full_statement(&mut b, 2, &targets, &real, &funcs, false);
+                        push(&mut b, self.st.ind, 1, "end");
                     }
                     b.push(String::new());
                     items.extend(b);
@@ -1352,49 +1464,43 @@ impl<'a> G<'a> {
                 }
                 2 => {
                     // generate for: one continuous assignment per bit
-                    let srcs: Vec<Sig> = real.iter().skip(0).filter(|s| s.w >= target.w).cloned().collect();
-                    if target.w < 2 || srcs.is_empty() {
+                    let srcs: Vec<Sig> = real.iter().filter(|s| s.w >= target.w).cloned().collect();
+                    if target.w < 2 || srcs.is_empty() || !self.hz(Hz::GenLabel, 1, 1) {
                         self.class("item:assign");
                         let e = self.rhs(&real, &funcs, 2);
                         items.push(format!("{}assign {} = {e};", self.st.ind, target.name));
                     } else {
-                        if !self.hz(Hz::GenLabel, 1, 1) {
-                            self.class("item:assign");
-                            let e = self.rhs(&real, &funcs, 2);
-                            items.push(format!("{}assign {} = {e};", self.st.ind, target.name));
-                        } else {
-                            self.class("item:generate-for");
-                            let a = srcs[self.d.below_usize(srcs.len())].clone();
-                            let b2 = srcs[self.d.below_usize(srcs.len())].clone();
-                            let gv = self.fresh("gi");
-                            let label = self.fresh("g_bit");
-                            let n = target.w;
-                            let mut b: Vec<String> = vec![];
-                            let lvl = if self.st.gen_kw { 2 } else { 1 };
-                            let inline_genvar = self.d.bool();
-                            if !inline_genvar {
-                                lines_push(&mut b, self.st.ind, 1, &format!("genvar {gv};"));
-                            }
-                            if self.st.gen_kw {
-                                lines_push(&mut b, self.st.ind, 1, "generate");
-                            }
-                            let gvd = if inline_genvar { format!("genvar {gv}") } else { gv.clone() };
-                            let step = if self.d.bool() { format!("{gv}++") } else { format!("{gv} = {gv} + 1") };
-                            lines_push(&mut b, self.st.ind, lvl, &format!("for ({gvd} = 0; {gv} < {n}; {step}) begin : {label}"));
-                            let body = match self.d.below(3) {
-                                0 => format!("assign {}[{gv}] = {}[{gv}] ^ {}[{} - {gv}];", target.name, a.name, b2.name, n - 1),
-                                1 => format!("assign {}[{gv}] = {}[{} - {gv}];", target.name, a.name, n - 1),
-                                _ => format!("assign {}[{gv}] = {}[{gv}] | ~{}[{gv}];", target.name, a.name, b2.name),
-                            };
-                            self.ops += 2;
-                            lines_push(&mut b, self.st.ind, lvl + 1, &body);
-                            lines_push(&mut b, self.st.ind, lvl, "end");
-                            if self.st.gen_kw {
-                                lines_push(&mut b, self.st.ind, 1, "endgenerate");
-                            }
-                            b.push(String::new());
-                            items.extend(b);
+                        self.class("item:generate-for");
+                        let a = srcs[self.d.below_usize(srcs.len())].clone();
+                        let b2 = srcs[self.d.below_usize(srcs.len())].clone();
+                        let gv = self.fresh("gi");
+                        let label = self.fresh("g_bit");
+                        let n = target.w;
+                        let mut b: Vec<String> = vec![];
+                        let lvl = if self.st.gen_kw { 2 } else { 1 };
+                        let inline_genvar = self.d.bool();
+                        if !inline_genvar {
+                            push(&mut b, self.st.ind, 1, &format!("genvar {gv};"));
                         }
+                        if self.st.gen_kw {
+                            push(&mut b, self.st.ind, 1, "generate");
+                        }
+                        let gvd = if inline_genvar { format!("genvar {gv}") } else { gv.clone() };
+                        let step = if self.d.bool() { format!("{gv}++") } else { format!("{gv} = {gv} + 1") };
+                        push(&mut b, self.st.ind, lvl, &format!("for ({gvd} = 0; {gv} < {n}; {step}) begin : {label}"));
+                        let body = match self.d.below(3) {
+                            0 => format!("assign {}[{gv}] = {}[{gv}] ^ {}[{} - {gv}];", target.name, a.name, b2.name, n - 1),
+                            1 => format!("assign {}[{gv}] = {}[{} - {gv}];", target.name, a.name, n - 1),
+                            _ => format!("assign {}[{gv}] = {}[{gv}] | ~{}[{gv}];", target.name, a.name, b2.name),
+                        };
+                        self.ops += 2;
+                        push(&mut b, self.st.ind, lvl + 1, &body);
+                        push(&mut b, self.st.ind, lvl, "end");
+                        if self.st.gen_kw {
+                            push(&mut b, self.st.ind, 1, "endgenerate");
+                        }
+                        b.push(String::new());
+                        items.extend(b);
                     }
                 }
                 3 => {
@@ -1416,22 +1522,22 @@ impl<'a> G<'a> {
                         let mut b: Vec<String> = vec![];
                         let lvl = if self.st.gen_kw { 2 } else { 1 };
                         if self.st.gen_kw {
-                            lines_push(&mut b, self.st.ind, 1, "generate");
+                            push(&mut b, self.st.ind, 1, "generate");
                         }
-                        lines_push(&mut b, self.st.ind, lvl, &format!("if ({p} {op} {cmpv}) begin : {l1}"));
-                        lines_push(&mut b, self.st.ind, lvl + 1, &format!("assign {} = {e1};", target.name));
-                        lines_push(&mut b, self.st.ind, lvl, &format!("end else begin : {l2}"));
-                        lines_push(&mut b, self.st.ind, lvl + 1, &format!("assign {} = {e2};", target.name));
-                        lines_push(&mut b, self.st.ind, lvl, "end");
+                        push(&mut b, self.st.ind, lvl, &format!("if ({p} {op} {cmpv}) begin : {l1}"));
+                        push(&mut b, self.st.ind, lvl + 1, &format!("assign {} = {e1};", target.name));
+                        push(&mut b, self.st.ind, lvl, &format!("end else begin : {l2}"));
+                        push(&mut b, self.st.ind, lvl + 1, &format!("assign {} = {e2};", target.name));
+                        push(&mut b, self.st.ind, lvl, "end");
                         if self.st.gen_kw {
-                            lines_push(&mut b, self.st.ind, 1, "endgenerate");
+                            push(&mut b, self.st.ind, 1, "endgenerate");
                         }
                         b.push(String::new());
                         items.extend(b);
                     }
                 }
-                _ => {
-                    // instance of a child: its first output drives `target` (widths follow the child)
+                4 => {
+                    // instance of a child: its first output drives `target`
                     self.class("item:instance");
                     let ch = children[self.d.below_usize(children.len())].clone();
                     let iname = self.fresh(&format!("u_{}", ch.name));
@@ -1440,7 +1546,6 @@ impl<'a> G<'a> {
                     let mut ordered: Vec<String> = vec![];
                     for (p, is_in) in &ch.ports {
                         if *is_in {
-                            // an expression or a plain signal
                             let e = if self.d.chance(1, 2) {
                                 self.pick_sig(&real).name.clone()
                             } else {
@@ -1472,10 +1577,13 @@ impl<'a> G<'a> {
                     {
                         ptxt = format!(" #(.{pn}({}))", pv + 1 + self.d.below(3));
                     }
+                    let named = format!("{}{}{ptxt} {iname} ({});", self.st.ind, ch.name, conns.join(", "));
                     if self.hz(Hz::InstOrdered, 1, 8) {
-                        items.push(format!("{}{}{ptxt} {iname} ({});", self.st.ind, ch.name, ordered.join(", ")));
+                        let pos = format!("{}{}{ptxt} {iname} ({});", self.st.ind, ch.name, ordered.join(", "));
+                        self.sim_rewrites.push((pos.clone(), named));
+                        items.push(pos);
                     } else if self.d.bool() {
-                        items.push(format!("{}{}{ptxt} {iname} ({});", self.st.ind, ch.name, conns.join(", ")));
+                        items.push(named);
                     } else {
                         items.push(format!("{}{}{ptxt} {iname} (", self.st.ind, ch.name));
                         let n = conns.len();
@@ -1486,37 +1594,45 @@ impl<'a> G<'a> {
                     }
                     items.push(String::new());
                     decl_kw = *self.d.pick(&["logic", "wire"]);
-                    if let Some(oi) = out_index {
-                        out_kind[oi] = 2;
+                }
+                _ => {
+                    // small memory read through an index (finding Unpacked) — otherwise an assignment
+                    let idx: Vec<Sig> = real.iter().filter(|s| s.w == 2).cloned().collect();
+                    if idx.is_empty() || !self.hz(Hz::Unpacked, 1, 1) {
+                        self.class("item:assign");
+                        let e = self.rhs(&real, &funcs, 2);
+                        items.push(format!("{}assign {} = {e};", self.st.ind, target.name));
+                    } else {
+                        self.class("item:unpacked-array");
+                        let m = self.fresh("mem");
+                        let d = self.dim(target.w, wp);
+                        let rng = if self.d.bool() { "[0:3]" } else { "[4]" };
+                        decls.push(format!("logic {d}{m} {rng};"));
+                        for k in 0..4 {
+                            let e = self.rhs(&real, &funcs, 2);
+                            items.push(format!("{}assign {m}[{k}] = {e};", self.st.ind));
+                        }
+                        let i = idx[self.d.below_usize(idx.len())].name.clone();
+                        items.push(format!("{}assign {} = {m}[{i}];", self.st.ind, target.name));
                     }
                 }
             }
             if drive_out {
                 continue;
             }
-            // declaration of the new local
             let mut t = target.clone();
             if decl_kw == "wire" && t.signed && !self.hz(Hz::WireSigned, 1, 1) {
                 t.signed = false;
             }
             let two_state = decl_kw == "logic" && self.d.chance(1, 12);
-            let kw = if two_state {
-                self.class("decl:bit");
-                "bit"
-            } else {
-                decl_kw
-            };
+            let kw = if two_state { "bit" } else { decl_kw };
             if kw != "logic" {
                 self.class(&format!("decl:{kw}"));
             }
-            let mut tt = self.type_text(kw, &t, wp);
-            if t.w >= 2 && self.hz(Hz::DimNonZero, 1, 20) {
-                tt = format!("{kw} {}[{}:1] ", if t.signed { "signed " } else { "" }, t.w);
-            }
+            let tt = self.type_text(kw, &t, wp);
             decls.push(format!("{tt}{};", t.name));
             av.push(t);
         }
-        let _ = n_consts;
 
         // ---- now the header text of the outputs
         for (i, s) in outputs.iter().enumerate() {
@@ -1552,7 +1668,15 @@ impl<'a> G<'a> {
             head.push_str(" (\n");
             let n = port_txt.len();
             for (i, p) in port_txt.iter().enumerate() {
-                let c = self.comment();
+                // a comment after the separator is harmless; after the last port name
+                // there is no separator (finding TrailingComment)
+                let c = if i + 1 < n {
+                    self.comment()
+                } else if self.st.comments > 0 && self.hz(Hz::TrailingComment, 1, 3) {
+                    " // last port".to_string()
+                } else {
+                    String::new()
+                };
                 head.push_str(&format!("{}{p}{}{c}\n", self.st.ind, if i + 1 < n { "," } else { "" }));
             }
             head.push_str(");");
@@ -1561,11 +1685,10 @@ impl<'a> G<'a> {
         }
         out.push(head);
         for l in &lps {
-            lines_push(&mut out, self.st.ind, 1, l);
+            push(&mut out, self.st.ind, 1, l);
         }
-        // group declarations at the top, the way most people do
         for l in &decls {
-            lines_push(&mut out, self.st.ind, 1, l);
+            push(&mut out, self.st.ind, 1, l);
         }
         if !decls.is_empty() || !lps.is_empty() {
             out.push(String::new());
@@ -1620,9 +1743,17 @@ pub fn gen_case(d: &mut Draw, allow: &BTreeSet<Hz>) -> Case {
         st,
         uniq: 0,
         clock: ClockCfg::default(),
+        sim_rewrites: vec![],
     };
+    if allow.contains(&Hz::TrailingComment) {
+        g.st.comments = 200;
+        g.st.port_lines = true;
+    }
     let with_ff = g.hz(Hz::Ff, 2, 5);
-    let n_children = g.d.weighted(&[5, 3, 1]);
+    let mut n_children = g.d.weighted(&[5, 3, 1]);
+    if allow.contains(&Hz::InstParam) || allow.contains(&Hz::InstOrdered) {
+        n_children = n_children.max(1);
+    }
     let mut children: Vec<ModInfo> = vec![];
     let mut texts: Vec<Vec<String>> = vec![];
     for i in 0..n_children {
@@ -1633,7 +1764,6 @@ pub fn gen_case(d: &mut Draw, allow: &BTreeSet<Hz>) -> Case {
     }
     let top = (*g.d.pick(&["top", "dut", "core", "alu_unit"])).to_string();
     let (t, _) = g.module(&top, &children, true, 5, with_ff);
-    // children before or after the top module
     if g.d.chance(1, 4) {
         texts.insert(0, t);
     } else {
@@ -1646,6 +1776,10 @@ pub fn gen_case(d: &mut Draw, allow: &BTreeSet<Hz>) -> Case {
     for t in texts {
         sv.push_str(&t.join("\n"));
         sv.push('\n');
+    }
+    let mut sv_sim = sv.clone();
+    for (from, to) in &g.sim_rewrites {
+        sv_sim = sv_sim.replace(from, to);
     }
     if g.st.sp {
         g.class("style:spaced-operators");
@@ -1671,6 +1805,7 @@ pub fn gen_case(d: &mut Draw, allow: &BTreeSet<Hz>) -> Case {
     }
     Case {
         sv,
+        sv_sim,
         top,
         clock: g.clock.clone(),
         classes: g.classes,
